@@ -374,6 +374,9 @@ func main() {
 			id, tier, seed, evals, distinct, refused, time.Since(start).Seconds())
 	}
 
+	if replay != "" && len(violations) == 0 && len(inconclusive) == 0 {
+		fmt.Printf("replay %s: property %s held on the replayed case\n", replay, id)
+	}
 	sort.Strings(known)
 	for _, k := range known {
 		fmt.Println(k)
